@@ -70,6 +70,10 @@ fn gen_mapping(rng: &mut Rng, uses_time: bool) -> Vec<(String, Map)> {
         ("origin".into(), Map::Optional(Box::new(Map::Path("request.origin_vertex".into())))),
         ("sum_edges_iter".into(), Map::Sum(vec![Map::Optional(Box::new(Map::Path("route_edges".into()))), Map::Optional(Box::new(Map::Path("iterations".into())))])),
         ("variant".into(), Map::Optional(Box::new(Map::Path("request.variant".into())))),
+        ("note".into(), Map::Optional(Box::new(Map::Path("request.note".into())))),
+        // an array-valued path (the edge id list) and an object-valued one: their JSON text holds commas and quotes
+        ("path".into(), Map::Optional(Box::new(Map::Path("route.path".into())))),
+        ("injected".into(), Map::Optional(Box::new(Map::Path("request.injected".into())))),
     ];
     if uses_time {
         pool.push(("time".into(), Map::Optional(Box::new(Map::Path("route.traversal_summary.time".into())))));
@@ -112,6 +116,16 @@ fn parse_csv(text: &str) -> Result<(Vec<String>, Vec<Vec<String>>), String> {
     }
     let header = rows.remove(0);
     Ok((header, rows))
+}
+
+/// a string as JSON writes it, without the surrounding quotes (the csv format renders text cells as JSON strings)
+fn json_inner(s: &str) -> String {
+    let j = serde_json::to_string(s).unwrap_or_default();
+    if j.len() >= 2 {
+        j[1..j.len() - 1].to_string()
+    } else {
+        j
+    }
 }
 
 fn cell_text(v: &Value) -> String {
@@ -165,6 +179,19 @@ fn case(tier: Tier, case_no: usize, rng: &mut Rng, rep: &mut Report) {
     let n = if rng.chance(0.15) { rng.urange(1, 5) } else { rng.urange(5, if tier.thorough { 600 } else { 150 }) };
     // valid and failing queries, no non-object queries (they carry no qid to pair rows with)
     let batch: Vec<Value> = gen_batch(rng, &spec, n, 0.12, &format!("s{case_no}q")).into_iter().map(|b| b.0).filter(|q| q.is_object()).collect();
+    // free-text field echoed in the request: commas, quotes, backslashes, line breaks, tabs, non-ASCII
+    const NOTES: [&str; 10] = ["alpha", "with, comma", "tab\there", "line1\nline2", "say \"hi\"", "say \"hi\", then go", "back\\slash", "mixed \"q\", \\ and\nnewline", "accents \u{e9} \u{fc} \u{6f22}", "trailing quote\""];
+    let batch: Vec<Value> = batch
+        .into_iter()
+        .map(|mut q| {
+            if rng.chance(0.5) {
+                if let Some(o) = q.as_object_mut() {
+                    o.insert("note".into(), json!(*rng.pick(&NOTES)));
+                }
+            }
+            q
+        })
+        .collect();
     let fmt = if csv_mode { "csv" } else { "ndjson" };
     let base_replay = json!({"toml": built.toml, "batch": batch});
     // queries that fail in the input plugins never reach the sink (their error responses are appended to
@@ -350,7 +377,7 @@ fn case(tier: Tier, case_no: usize, rng: &mut Rng, rep: &mut Report) {
                             for (k, w) in &want {
                                 let g = &got[k];
                                 // numeric cells compare as numbers
-                                let same = w.len() == g.len() && w.iter().zip(g).all(|(a, b)| a.iter().zip(b).all(|(x, y)| x == y || matches!((x.parse::<f64>(), y.parse::<f64>()), (Ok(p), Ok(q)) if crate::oracle::units::rel_close(p, q, 1e-9, 0.0))));
+                                let same = w.len() == g.len() && w.iter().zip(g).all(|(a, b)| a.iter().zip(b).all(|(x, y)| x == y || json_inner(x) == *y || matches!((x.parse::<f64>(), y.parse::<f64>()), (Ok(p), Ok(q)) if crate::oracle::units::rel_close(p, q, 1e-9, 0.0))));
                                 if !same {
                                     rep.violate("C19|file|csv-cell-value", format!("W4 rows for {k}: file {g:?}, mapping applied to the response {w:?}"), replay);
                                     break;
